@@ -402,3 +402,59 @@ def assignment_leaves(func_node, name, mapping=None):
 
     walk(func_node.body, frozenset())
     return out
+
+
+class _CanonCompare(ast.NodeTransformer):
+    """`a > b` -> `b < a`, `a >= b` -> `b <= a`; operands of == / != ordered by text (pure operands only)."""
+
+    def visit_Compare(self, node):
+        self.generic_visit(node)
+        if len(node.ops) != 1:
+            return node
+        l, r, op = node.left, node.comparators[0], node.ops[0]
+        pure = lambda e: isinstance(e, (ast.Name, ast.Constant)) or (isinstance(e, ast.Attribute) and pure(e.value))
+        if not (pure(l) and pure(r)):
+            return node
+        if isinstance(op, ast.Gt):
+            return ast.Compare(left=r, ops=[ast.Lt()], comparators=[l])
+        if isinstance(op, ast.GtE):
+            return ast.Compare(left=r, ops=[ast.LtE()], comparators=[l])
+        if isinstance(op, (ast.Eq, ast.NotEq)) and norm(r) < norm(l):
+            return ast.Compare(left=r, ops=[op], comparators=[l])
+        return node
+
+
+def canon_function_text(fn_node, keep_params=True) -> str:
+    """Text of a function that is invariant under renaming of its locals, docstring edits and operand order of
+    pure comparisons (the module-level normaliser has already removed single-use temporaries, else-after-return, ...)."""
+    import copy as _copy
+    fn = _copy.deepcopy(fn_node)
+    if fn.body and isinstance(fn.body[0], ast.Expr) and isinstance(fn.body[0].value, ast.Constant) and isinstance(fn.body[0].value.value, str):
+        fn.body = fn.body[1:] or [ast.Pass()]
+    a = fn.args
+    params = [x.arg for x in a.posonlyargs + a.args + a.kwonlyargs] + ([a.vararg.arg] if a.vararg else []) + ([a.kwarg.arg] if a.kwarg else [])
+    mapping = {}
+    for n in ast.walk(fn):
+        name = None
+        if isinstance(n, ast.Name) and isinstance(n.ctx, (ast.Store, ast.Del)):
+            name = n.id
+        elif isinstance(n, ast.ExceptHandler) and n.name:
+            name = n.name
+        elif isinstance(n, ast.arg) and n.arg not in params:
+            name = n.arg
+        if name and name not in mapping and name not in params:
+            mapping[name] = f"_v{len(mapping)}"
+    if not keep_params:
+        for i, p in enumerate(params):
+            if p not in ("self", "cls"):
+                mapping[p] = f"_p{i}"
+    for n in ast.walk(fn):
+        if isinstance(n, ast.Name) and n.id in mapping:
+            n.id = mapping[n.id]
+        elif isinstance(n, ast.ExceptHandler) and n.name in mapping:
+            n.name = mapping[n.name]
+        elif isinstance(n, ast.arg) and n.arg in mapping:
+            n.arg = mapping[n.arg]
+    fn = _CanonCompare().visit(fn)
+    ast.fix_missing_locations(fn)
+    return ast.unparse(fn)
